@@ -117,11 +117,11 @@ DATA = {
     "Dec_30": [decimal.Decimal("1234567890123456789012345678.90")],
     "Dec_3": [decimal.Decimal("12.3")],
     "Rec_dec": [{"d": decimal.Decimal("12345"), "t": datetime.datetime(2020, 1, 2, 3, 4, 5, 6, tzinfo=datetime.timezone.utc)}],
-    "UAB_1": [{"u": {"y": 7}}, {"u": {"x": 1}}, {"u": {}}],
-    "UAB_2": [{"u": {"y": 7}}, {"u": {"x": 1}}, {"u": {}}],
+    "UAB_1": [{"u": {"y": 7}}, {"u": {"x": 1}}, {"u": {}}, {"u": {"y": 7, "-type": "B"}}, {"u": ("A", {"x": 3})}],
+    "UAB_2": [{"u": {"y": 7}}, {"u": {"x": 1}}, {"u": {}}, {"u": {"y": 7, "-type": "A"}}, {"u": ("B", {"x": 3})}],
     "R_nested": [{}, {"grid": [[9]], "u": None}],
     "Prim": [5, -1],
-    "Union": [None, "s", {"u": True}],
+    "Union": [None, "s", {"u": True}, {"u": False, "-type": "R"}, ("R", {"u": True})],
     # reference-only schemas: data for the contexts in which they can be parsed
     "Uses_R": [{"x": {"a": 1}}, {"x": {"b": "y"}}, {"x": "X"}],
     "Uses_E": [{"x": None}, {"x": "A"}, {"x": "C"}],
@@ -265,8 +265,8 @@ class History:
             out = self.new("B")
             self.bytes_.append((out, key, "s", sref))
             d = {"op": "swrite", "schema": sref, "datum": datum, "out": out}
-            if ch.chance(15):
-                d["opts"] = {"strict": True}
+            if ch.chance(25):
+                d["opts"] = ch.pick([{"strict": True}, {"strict_allow_default": True}, {"disable_tuple_notation": True}])
             return d
         if k == 2 and self.bytes_:
             cands = [b for b in self.bytes_ if b[2] == "s"]
